@@ -1,4 +1,5 @@
 import ZenonVerif.Lemmas.Abi
+import ZenonVerif.Lemmas.AbiPack
 /-
 C09-T3 — the ABI decoder never panics (property theorems; model: Model/Abi.lean, helpers: Lemmas/Abi.lean).
 
@@ -69,9 +70,55 @@ theorem selectors_distinct :
 theorem selectors_wellformed : ∀ s ∈ Gen.abiSignatures, s.2.2.1.length = 4 ∧ Bytes.WF s.2.2.1 := by
   decide
 
+/-! ## unpack ∘ pack: what the receive path reads is what the send path validated
+
+Every `ValidateSendBlock` decodes the call data, checks the values and REPLACES `block.Data` by `PackMethod(values)`; the
+gossip path then refuses a block whose data was not already that encoding (the hash no longer matches), the template path
+signs the re-packed block. `ReceiveBlock` decodes the stored data again — several methods with `common.DealWithErr` on the
+result, i.e. a panic on the producer path if decoding the re-packed data could fail. -/
+
+/-- `unpack_pack` for the flat argument types (static elementary types, `string`, `bytes`): decoding the canonical encoding
+    of well-typed values returns exactly those values. Partial: argument lists with slices (`address[]`, `string[]`,
+    `uint32[]`, `uint256[]`: bridge/liquidity `NominateGuardians`, liquidity `SetTokenTuple`) are not covered by this
+    theorem; for them the statement is checked by the `abi` stream only (re-packed bytes and their decoding compared on the
+    real code). -/
+theorem unpack_pack_partial (sel : Bytes) (hsel : sel.length = 4) (tys : List Ty) (vs : List Val) (input : Bytes)
+    (hflat : ∀ t ∈ tys, t.Flat) (hty : HasTys tys vs) (hp : packMethod sel tys vs = some input)
+    (hlen : input.length ≤ maxAlloc) (hne : tys ≠ []) (hk : tys.length ≤ 1048576) :
+    unpackMethod sel tys input = .ok vs :=
+  unpackMethod_packMethod sel hsel tys vs input hflat hty hp hlen hne hk
+
+/-- which live methods `unpack_pack_partial` covers: every method of every embedded ABI has flat argument types, except the
+    three with slice arguments. -/
+theorem flat_signatures :
+    ∀ s ∈ Gen.abiSignatures, s.2.2.2.all Ty.flatb = true ∨ s.2.1 = "NominateGuardians" ∨ s.2.1 = "SetTokenTuple" := by
+  decide
+
+theorem signature_lengths : ∀ s ∈ Gen.abiSignatures, s.2.2.2.length ≤ 1048576 := by decide
+
+/-- The receive path decodes what the send path validated: for every live method with flat argument types, the data that
+    `ValidateSendBlock` stores (`PackMethod` of the values it decoded and checked) decodes, at receive time, to exactly those
+    values — never to an error, so the `DealWithErr` after the second decode cannot fire. -/
+theorem receive_decodes_what_send_validated (abi method : String) (sel : Bytes) (tys : List Ty)
+    (hs : (abi, method, sel, tys) ∈ Gen.abiSignatures) (hflat : tys.all Ty.flatb = true) (hne : tys ≠ [])
+    (vs : List Val) (hty : HasTys tys vs) (stored : Bytes) (hp : packMethod sel tys vs = some stored)
+    (hlen : stored.length ≤ maxAlloc) :
+    unpackMethod sel tys stored = .ok vs := by
+  have hsel := (selectors_wellformed _ hs).1
+  have hk : tys.length ≤ 1048576 := signature_lengths _ hs
+  exact unpack_pack_partial sel hsel tys vs stored
+    (fun t ht => Ty.flatb_sound t (List.all_eq_true.mp hflat t ht)) hty hp hlen hne hk
+
 /-- the hypotheses are satisfiable: a live signature, a concrete hostile input (offset 2^256-1) that is rejected, not crashed on -/
 example : ("token", "Mint", [205, 112, 249, 188], [Ty.tokenStandard, Ty.uint 256, Ty.address]) ∈ Gen.abiSignatures := by decide
 example : (match unpackMethod [124, 45, 93, 110] [Ty.string] ([124, 45, 93, 110] ++ List.replicate 32 255) with
     | .err => true | _ => false) = true := by decide
+
+/-- non-vacuity of `unpack_pack_partial`: token.Mint(zts, 5, address) -/
+example : HasTys [Ty.tokenStandard, Ty.uint 256, Ty.address]
+    [.bytes (List.replicate 10 7), .num 5, .bytes (List.replicate 20 9)] :=
+  .cons (by show (List.replicate 10 7).length = 10; rfl)
+    (.cons (by show _ ∧ _ ∧ _; refine ⟨by omega, by omega, by decide⟩)
+      (.cons (by show (List.replicate 20 9).length = 20; rfl) .nil))
 
 end ZV.C09Abi
